@@ -33,6 +33,7 @@ static inline _Bool BusRequest_notify(struct BusRequest* r, result_t result, con
   __CPROVER_assert(r != NULL && r->life == RL_CURRENT, "[C04] only the current request is completed");
   __CPROVER_assert(r->notified == 0, "[C04] a request is completed at most once per submission");
   r->notified = r->notified + 1; g_last_notify_result = result; g_notify_calls = g_notify_calls + 1;
+  __CPROVER_assert(result <= RESULT_OK, "[C04] a request is completed with a definite result: success or an error code, never an in-progress code (RESULT_CONTINUE, RESULT_EMPTY)");
   __CPROVER_assert((result == RESULT_OK) == (g_rx.emit && g_step_role == 1), "[C02] a request completes successfully iff its exchange on the bus was valid (CRC echoed / ACK received / CRC-correct response acknowledged)");
   if (result == RESULT_OK) {
     __CPROVER_assert(slave->m_data.n == ((g_rx.cmd[1] == 0xFE || rx_is_master(g_rx.cmd[1])) ? 0 : g_rx.rn), "[C02] a successful request carries the slave response seen on the bus (length)");
